@@ -85,6 +85,7 @@ let op = function
   | L [A "enqueue"; e] -> OEnqueue (evt e)
   | L [A "drain"; v; p] -> ODrain (nats v, plan p)
   | L [A "drain1"; v; p] -> ODrain1 (nats v, plan p)
+  | L [A "reset"] -> OReset
   | x -> bad "op" x
 
 let ints l = String.concat "," (List.map (fun n -> string_of_int (int_of_nat n)) l)
@@ -124,7 +125,7 @@ let () =
     let processor = build cf md.md_parents false md.md_root in
     let rn = ref (init_rnode md.md_root) in
     List.iter (fun o ->
-        let (rn', tr) = run_op cf processor default_fuel !rn (op o) in
+        let (rn', tr) = run_op cf md.md_root processor default_fuel !rn (op o) in
         rn := rn';
         List.iter print_item tr;
         List.iter (fun (p, ids) -> Printf.printf "SNAP %s [%s]\n" (path p) (ints ids)) (snapshot md.md_root rn' []);
